@@ -758,3 +758,173 @@ func RunLongKillTimeoutShutdownCase(seed int64, workDir string) *HistResult {
 	}
 	return res
 }
+
+// RunForcedShutdownManyIgnorersCase (C20; seed C20-m): a forced Shutdown ends SEVERAL running jobs whose process trees
+// ignore the interrupt. "This takes no longer than the kill timeout plus scheduling latency" holds for every one of
+// them, not only for the first: the jobs are stopped side by side, not one after the other (n jobs x kill timeout).
+// The latency allowance is calibrated beforehand with a control job whose process dies on the interrupt (cancel-to-report
+// latency L, counted in heartbeats): every job is reported finished, and nothing of it is alive, within K + max(1.5 s, 10 L).
+func RunForcedShutdownManyIgnorersCase(seed int64, workDir string) *HistResult {
+	res := &HistResult{Seed: seed, Situations: map[string]map[string]struct{}{}, Evaluations: map[string]int{}}
+	find := func(sig, format string, args ...any) {
+		res.Findings = append(res.Findings, Finding{Props: []string{"C20", "C11"}, Sig: sig, Detail: fmt.Sprintf(format, args...), Step: -1})
+	}
+	K := []time.Duration{900 * time.Millisecond, 1200 * time.Millisecond}[seed%2]
+	n := 4 + int(seed/2)%2
+	dir, err := os.MkdirTemp(workDir, "fsd-")
+	if err != nil {
+		res.Inconclusive = err.Error()
+		return res
+	}
+	defer os.RemoveAll(dir)
+	run := fmt.Sprintf("f%d-%d", os.Getpid(), seed&0xffffff)
+	mk := func(lines []string) definition.PipelineDef {
+		return definition.PipelineDef{Concurrency: 8, Tasks: map[string]definition.TaskDef{"tree": {Script: lines}}, SourcePath: "gen"}
+	}
+	specs := []gen.PipeSpec{
+		{Name: "ignorer", Def: mk([]string{`PXV_MARK={{.mark}} bash -c 'trap "" INT; sleep 300'`}), Graph: gen.Graph{Names: []string{"tree"}, Deps: map[string][]string{}}},
+		{Name: "control", Def: mk([]string{"PXV_MARK={{.mark}} sleep 300"}), Graph: gen.Graph{Names: []string{"tree"}, Deps: map[string][]string{}}},
+	}
+	sys, _, _, err := realSysKT(specs, dir, &K)
+	if err != nil {
+		res.Inconclusive = err.Error()
+		return res
+	}
+	defer sys.Close()
+	var beats atomic.Int64
+	stopBeat := make(chan struct{})
+	go func() {
+		tk := time.NewTicker(5 * time.Millisecond)
+		defer tk.Stop()
+		for {
+			select {
+			case <-stopBeat:
+				return
+			case <-tk.C:
+				beats.Add(1)
+			}
+		}
+	}()
+	defer close(stopBeat)
+	markC := run + "-c"
+	var marks, ids []string
+	defer func() {
+		for _, m := range append(append([]string(nil), marks...), markC) {
+			for _, pid := range scanMarked(m) {
+				if p, err := os.FindProcess(pid); err == nil {
+					_ = p.Kill()
+				}
+			}
+		}
+	}()
+	for i := 0; i < n; i++ {
+		m := fmt.Sprintf("%s-i%d", run, i)
+		id, cls := sys.Schedule(0, "ignorer", map[string]interface{}{"mark": m}, "u")
+		if cls != "ok" {
+			res.Inconclusive = "schedule: " + cls
+			return res
+		}
+		marks, ids = append(marks, m), append(ids, id)
+	}
+	idC, cls := sys.Schedule(0, "control", map[string]interface{}{"mark": markC}, "u")
+	if cls != "ok" {
+		res.Inconclusive = "schedule: " + cls
+		return res
+	}
+	deadline := time.Now().Add(15 * time.Second)
+	up := func() bool {
+		for _, m := range marks {
+			if len(scanMarked(m)) < 1 {
+				return false
+			}
+		}
+		return len(scanMarked(markC)) >= 1
+	}
+	for !up() {
+		if time.Now().After(deadline) {
+			res.Inconclusive = "process trees did not come up"
+			return res
+		}
+		time.Sleep(2 * time.Millisecond)
+	}
+	time.Sleep(30 * time.Millisecond) // let the shells install their traps (shaping only)
+	// calibration: cancel-to-report latency of a job whose process dies on the interrupt
+	c0 := beats.Load()
+	if c := sys.Cancel(0, idC); c != "ok" {
+		find("C20:cancel-result", "cancel of the control job returned %q", c)
+	}
+	var doneC int64 = -1
+	for beats.Load()-c0 < int64(12*time.Second/(5*time.Millisecond)) {
+		if j, ok := sys.ReadJob(idC); ok && j.Completed {
+			doneC = beats.Load() - c0
+			break
+		}
+		time.Sleep(500 * time.Microsecond)
+	}
+	if doneC < 0 {
+		res.Inconclusive = "the control job (plain sleep) was not reported finished within 12 s after its cancel: machine too loaded to judge"
+		return res
+	}
+	ctx, cancel := context.WithCancel(context.Background())
+	cancel()
+	t0 := beats.Load()
+	sd := make(chan struct{})
+	go func() { defer close(sd); _ = sys.Shutdown(5, ctx, "forced, several interrupt-ignoring jobs") }()
+	kBeats := int64(K / (5 * time.Millisecond))
+	done := make([]int64, n)
+	for i := range done {
+		done[i] = -1
+	}
+	var sdBeats int64 = -1
+	left := n
+	for beats.Load()-t0 < kBeats*int64(n+1)+int64(12*time.Second/(5*time.Millisecond)) && (left > 0 || sdBeats < 0) {
+		for i, id := range ids {
+			if done[i] < 0 {
+				if j, ok := sys.ReadJob(id); ok && j.Completed {
+					done[i] = beats.Load() - t0
+					left--
+				}
+			}
+		}
+		if sdBeats < 0 {
+			select {
+			case <-sd:
+				sdBeats = beats.Load() - t0
+			default:
+			}
+		}
+		time.Sleep(500 * time.Microsecond)
+	}
+	allow := int64(1500 * time.Millisecond / (5 * time.Millisecond))
+	if 10*doneC > allow {
+		allow = 10 * doneC
+	}
+	res.sit("C20", fmt.Sprintf("forced shutdown over %d running jobs that ignore the interrupt (kill timeout %v)", n, K))
+	res.Evaluations["C20"]++
+	res.journalf("kill timeout %v, %d ignorers: control finished after %d beats; jobs finished after %v beats, Shutdown returned after %d beats (5 ms each)", K, n, doneC, done, sdBeats)
+	worst := int64(0)
+	for i, d := range done {
+		if d < 0 {
+			find("C20:canceled-job-never-reported-finished", "forced shutdown, kill timeout %v: job %d of %d with an interrupt-ignoring tree was not reported finished within %d x kill timeout + 12 s", K, i+1, n, n+1)
+			return res
+		}
+		if d > worst {
+			worst = d
+		}
+	}
+	if worst > kBeats+allow {
+		find("C20:finish-takes-longer-than-kill-timeout", "forced shutdown over %d running jobs whose processes ignore the interrupt, kill timeout %v: the jobs were reported finished %v ms after the shutdown began (5 ms beats: %v); a job whose process dies on the interrupt took %d ms just before (allowance max(1.5 s, 10x that)) - the jobs are not stopped side by side", n, K, worst*5, done, doneC*5)
+	}
+	if sdBeats >= 0 {
+		var alive []int
+		for _, m := range marks {
+			alive = append(alive, scanMarked(m)...)
+		}
+		if len(alive) > 0 {
+			find("C20:alive-after-forced-shutdown-returned", "forced shutdown over %d interrupt-ignoring jobs has returned and %d of their processes are alive: %s", n, len(alive), describePids(alive))
+		}
+	} else {
+		res.Inconclusive = "forced Shutdown did not return"
+	}
+	return res
+}
